@@ -54,6 +54,42 @@ func (d *Decls) AddAxiom(name string, t *Term) {
 	d.AxName = append(d.AxName, name)
 }
 
+// RelevantAxioms returns the global axioms about functions that occur in ts (transitively).
+func (d *Decls) RelevantAxioms(ts []*Term) []*Term {
+	used := map[string]bool{}
+	for _, t := range ts {
+		collectApps(t, used)
+	}
+	var out []*Term
+	axUsed := make([]bool, len(d.Axioms))
+	for changed := true; changed; {
+		changed = false
+		for i, ax := range d.Axioms {
+			if axUsed[i] {
+				continue
+			}
+			m := map[string]bool{}
+			collectApps(ax, m)
+			hit := false
+			for n := range m {
+				if used[n] {
+					hit = true
+					break
+				}
+			}
+			if hit {
+				axUsed[i] = true
+				changed = true
+				out = append(out, ax)
+				for n := range m {
+					used[n] = true
+				}
+			}
+		}
+	}
+	return out
+}
+
 // Script renders a satisfiability query: declarations, the assertions, check-sat, get-model.
 // logic "" lets the solver choose (ALL for cvc5).
 func (d *Decls) Script(asserts []*Term, opts ScriptOpts) string {
@@ -88,32 +124,8 @@ func (d *Decls) Script(asserts []*Term, opts ScriptOpts) string {
 		}
 	}
 	mark(asserts)
-	axUsed := make([]bool, len(d.Axioms))
-	for changed := true; changed; {
-		changed = false
-		for i, ax := range d.Axioms {
-			if axUsed[i] {
-				continue
-			}
-			m := map[string]bool{}
-			collectApps(ax, m)
-			hit := false
-			for n := range m {
-				if used[n] {
-					hit = true
-					break
-				}
-			}
-			if hit {
-				axUsed[i] = true
-				changed = true
-				all = append(all, ax)
-				for n := range m {
-					used[n] = true
-				}
-			}
-		}
-	}
+	// (axioms are added by the caller through RelevantAxioms, so that they take part in
+	// quantifier instantiation like every other hypothesis)
 	for _, s := range d.Sorts {
 		switch s.Kind {
 		case KUninterp:
